@@ -15,6 +15,7 @@
     G | <groups of node 0>;<groups of node 1>;…;reg=<k>
     E <reason>          (harness ended the case; accepted only after a refused runtime batch)
     Q <closedbits|-> | <abc:deps:groups per node> reg=<k>
+    V | <parents>/<children>/<reverse dependency ids> per node, ';'-separated
   Output lines:
     MISMATCH line=<n> case=<k> what=<query|load> impl=<…> model=<…>
     SPECFAIL line=<n> case=<k> clause=<name>
@@ -25,6 +26,7 @@ import IcingaModel.Common.Proto
 import IcingaModel.C07.Model
 import IcingaModel.C07.Spec
 import IcingaModel.C07.Registry
+import IcingaModel.C07.History
 import Std.Data.HashSet
 
 open Icinga Icinga.C07 Icinga.Proto
@@ -35,6 +37,10 @@ structure DSt where
   live : List (Nat × Dep) := []         -- ascending dependency id
   pending : List (Nat × Dep) := []      -- cfg mode: D lines since the last L
   rst : RState := {}                    -- the registry model, driven op by op
+  closed : Array Bool := #[false, false, false, false]   -- pool periods closed now (T lines; all open at case start)
+  hrev : List (Nat × (Nat × Dep)) := [] -- the history model's reverse-dependency container
+  edgesCmp : Nat := 0
+  periodCmp : Nat := 0
   caseLoads : Nat := 0                  -- successful L lines in this case
   refusedLater : Bool := false          -- a runtime batch/addition was refused in this case
   skipRest : Bool := false              -- harness ended the case (E line); ignore up to the next C
@@ -75,19 +81,25 @@ def mkGraph (nodes : Array Node) (deps : List Dep) : Graph :=
       | none => { isService := false, host := none, checked := false, stateRaw := 0, hard := true },
     deps := deps }
 
-/-- candidate ranking by relaxation (longest dependency chain above each node, capped). -/
-def relax (n : Nat) (deps : List Dep) : Array Nat := Id.run do
-  let mut lvl : Array Nat := Array.replicate n 0
-  for _ in [0:259] do
-    let mut changed := false
-    for d in deps do
-      let lp := lvl[d.parent]?.getD 0
-      let lc := lvl[d.child]?.getD 0
-      if lc ≤ lp && lp < 400 && d.child < n then
-        lvl := lvl.set! d.child (lp + 1)
-        changed := true
-    if !changed then break
-  return lvl
+/-- the declared configuration of the running case, as the specification's `Cfg`. -/
+def mkCfg (nodes : Array Node) (live : List (Nat × Dep)) (closed : Array Bool) : Cfg :=
+  { node := (mkGraph nodes []).node, live := live, closed := fun p => closed[p]?.getD false }
+
+def parseIdList (s : String) : Option (List Nat) :=
+  if s == "-" then some [] else
+  (s.splitOn ",").mapM (fun w => if w == "?" then some 1000000 else w.toNat?)
+
+/-- one node of a `V` observation. -/
+def parseEdges (s : String) : Option (List Nat × List Nat × List Nat) :=
+  match s.splitOn "/" with
+  | [a, b, c] => do
+    let a ← parseIdList a
+    let b ← parseIdList b
+    let c ← parseIdList c
+    pure (a, b, c)
+  | _ => none
+
+def showIds (l : List Nat) : String := if l.isEmpty then "-" else ",".intercalate (l.map toString)
 
 def applyClosed (live : List (Nat × Dep)) (bits : List Char) : Option (List Dep) :=
   match live, bits with
@@ -199,7 +211,7 @@ def handle (d : DSt) (n : Nat) (line : String) : IO DSt := do
     if mode != "obj" && mode != "cfg" then bad else
     return { d with cfgMode := mode == "cfg", nodes := #[], live := [], pending := [], caseNo := d.caseNo + 1,
                     caseFailed := false, caseNontrivial := false, caseHash := hash mode, rst := {}, caseLoads := 0,
-                    refusedLater := false, skipRest := false }
+                    refusedLater := false, skipRest := false, closed := #[false, false, false, false], hrev := [] }
   | ["N", id, kind, host] =>
     match parseNat? id, parseInt? host with
     | some id, some host =>
@@ -220,7 +232,7 @@ def handle (d : DSt) (n : Nat) (line : String) : IO DSt := do
       if (d.live ++ d.pending).any (fun x => x.1 == id) then bad
       else if d.cfgMode then return bump { d with pending := insertSorted (id, dep) d.pending } line
       else return bump { d with live := insertSorted (id, dep) d.live, adds := d.adds + 1,
-                                rst := addDep d.rst (ldep (id, dep)) } line
+                                rst := addDep d.rst (ldep (id, dep)), hrev := d.hrev ++ [(dep.parent, (id, dep))] } line
     | none => bad
   | ["X", id] =>
     match parseNat? id with
@@ -228,7 +240,7 @@ def handle (d : DSt) (n : Nat) (line : String) : IO DSt := do
       match d.live.find? (fun x => x.1 == id) with
       | some x =>
         return bump { d with live := d.live.filter (fun x => x.1 != id), removes := d.removes + 1,
-                             rst := removeDep d.rst (ldep x) } line
+                             rst := removeDep d.rst (ldep x), hrev := d.hrev.filter (fun e => e.2.1 != id) } line
       | none => if d.refusedLater then return { d with skipRest := true } else bad
     | none => bad
   | ["S", v, chk, raw, ty] =>
@@ -240,7 +252,12 @@ def handle (d : DSt) (n : Nat) (line : String) : IO DSt := do
         return bump { d with nodes := d.nodes.set! v { nd with checked := chk, stateRaw := raw, hard := ty }, sets := d.sets + 1 } line
       | none => bad
     | _, _, _, _ => bad
-  | ["T", _, _] => return bump d line
+  | ["T", p, inside] =>
+    match parseNat? p, parseBool? inside with
+    | some p, some inside =>
+      if p ≥ d.closed.size then bad else
+      return bump { d with closed := d.closed.set! p (!inside) } line
+    | _, _ => bad
   | "L" :: rest =>
     let (_, post) := splitBar rest
     match post with
@@ -267,6 +284,7 @@ def handle (d : DSt) (n : Nat) (line : String) : IO DSt := do
             pushAll (d.pending.map ldep) d.rst ((d.pending.map (fun x => (x.2.child, x.2.key))).eraseDups)
           else addAll d.rst d.pending
         return { d with live := d.pending.foldl (fun acc x => insertSorted x acc) d.live, pending := [],
+                        hrev := d.hrev ++ d.pending.map (fun x => (x.2.parent, x)),
                         loadsOk := d.loadsOk + 1, adds := d.adds + (if d.caseLoads > 0 then new.length else 0),
                         rst := rst', caseLoads := d.caseLoads + 1 }
       else
@@ -300,14 +318,15 @@ def handle (d : DSt) (n : Nat) (line : String) : IO DSt := do
       if counts.any Option.isNone || counts.length != nn then
         IO.println s!"BADLINE line={n}"; return d
       let carr := (counts.filterMap (fun o => o)).toArray
-      match specRuntimeAdd nn g [dep] (io == "ok") (fun v => carr[v]?.getD 0) with
+      match specObs nn (mkCfg d.nodes d.live d.closed) (.load [(id, dep)] (io == "ok") (fun v => carr[v]?.getD 0)) with
       | some cl =>
         if !d.caseFailed then IO.println s!"SPECFAIL line={n} case={d.caseNo} clause={cl.name}"
         d := { d with specfails := d.specfails + 1, caseFailed := true }
       | none => pure ()
       if io == "ok" then
         -- follow the implementation
-        return { d with live := insertSorted (id, dep) d.live, rst := addDep d.rst (ldep (id, dep)), adds := d.adds + 1 }
+        return { d with live := insertSorted (id, dep) d.live, rst := addDep d.rst (ldep (id, dep)), adds := d.adds + 1,
+                        hrev := d.hrev ++ [(dep.parent, (id, dep))] }
       else
         return markNontrivial { d with refusedLater := true, rtRefused := d.rtRefused + 1 }
     | _, _ => bad
@@ -324,7 +343,8 @@ def handle (d : DSt) (n : Nat) (line : String) : IO DSt := do
             IO.println s!"MISMATCH line={n} case={d.caseNo} what=runtime-delete impl={io} model=ok"
             return { d with mismatches := d.mismatches + 1 }
           return { d with live := d.live.filter (fun y => y.1 != id), removes := d.removes + 1,
-                          rtDeletes := d.rtDeletes + 1, rst := removeDep d.rst (ldep x) }
+                          rtDeletes := d.rtDeletes + 1, rst := removeDep d.rst (ldep x),
+                          hrev := d.hrev.filter (fun e => e.2.1 != id) }
         | none => bad
       | none => bad
     | _, _ => bad
@@ -348,6 +368,30 @@ def handle (d : DSt) (n : Nat) (line : String) : IO DSt := do
         d := { d with specfails := d.specfails + 1, caseFailed := true }
       return d
     | _ => bad
+  | "V" :: rest =>
+    let (_, post) := splitBar rest
+    match post with
+    | [io] =>
+      let nn := d.nodes.size
+      let parts := io.splitOn ";"
+      let parsed := parts.map parseEdges
+      if parsed.any Option.isNone || parts.length != nn then bad else
+      let arr := (parsed.filterMap id).toArray
+      let cfg := mkCfg d.nodes d.live d.closed
+      let hs : HState := { cfg := cfg, rev := d.hrev }
+      let mut d := bump { d with edgesCmp := d.edgesCmp + 1 } "V"
+      let mo := ";".intercalate ((List.range nn).map (fun v => s!"{showIds (hs.parents v)}/{showIds (hs.children v)}/{showIds (hs.reverse v)}"))
+      if mo != io then
+        IO.println s!"MISMATCH line={n} case={d.caseNo} what=edges impl={io} model={mo}"
+        d := { d with mismatches := d.mismatches + 1 }
+      let get := fun (v : Nat) => arr[v]?.getD ([], [], [])
+      match specObs nn cfg (.edges (fun v => (get v).1) (fun v => (get v).2.1) (fun v => (get v).2.2)) with
+      | some cl =>
+        if !d.caseFailed then IO.println s!"SPECFAIL line={n} case={d.caseNo} clause={cl.name}"
+        d := { d with specfails := d.specfails + 1, caseFailed := true }
+      | none => pure ()
+      return d
+    | _ => bad
   | "Q" :: rest =>
     let (pre, post) := splitBar rest
     match pre with
@@ -355,17 +399,25 @@ def handle (d : DSt) (n : Nat) (line : String) : IO DSt := do
       let bitsL := if bits == "-" then [] else bits.toList
       match applyClosed d.live bitsL with
       | none => bad
-      | some deps =>
+      | some _ =>
         let nn := d.nodes.size
-        let g := mkGraph d.nodes deps
+        -- the closed periods follow from the D/T lines; the bits the harness read from the Dependency objects
+        -- (`GetPeriod()` + `IsInside`) are compared with them, not trusted
+        let cfg := mkCfg d.nodes d.live d.closed
+        let g := cfg.graph
+        let deps := g.deps
+        let derived := deps.map (fun x => if x.periodClosed then '1' else '0')
         -- implementation's observation
         let regTok := post.filter (fun w => w.startsWith "reg=")
         let nodeToks := post.filter (fun w => !w.startsWith "reg=")
         let parsed := nodeToks.map parseNodeObs
         if parsed.any Option.isNone || nodeToks.length != nn || regTok.length != 1 then bad else
         let obsArr : Array (Bool × Bool × Bool × Nat × Nat) := (parsed.filterMap id).toArray
-        let mut d := bump d (bits ++ "Q")
-        d := { d with queries := d.queries + 1, evals := d.evals + 3 * nn }
+        let mut d := bump d (String.ofList derived ++ "Q")
+        d := { d with queries := d.queries + 1, evals := d.evals + 3 * nn, periodCmp := d.periodCmp + deps.length }
+        if derived != bitsL then
+          IO.println s!"MISMATCH line={n} case={d.caseNo} what=period impl={bits} model={String.ofList derived}"
+          d := { d with mismatches := d.mismatches + 1 }
         -- model
         -- compared: reachability bits and the number of live dependencies per checkable (what the property
         -- names).  The number of group objects and the registry size are representation: statistics only.
@@ -387,10 +439,8 @@ def handle (d : DSt) (n : Nat) (line : String) : IO DSt := do
         d := { d with bits0 := d.bits0 + zeros, bits1 := d.bits1 + (3 * nn - zeros) }
         if zeros > 0 then d := markNontrivial d
         -- the property on the implementation's observation, when the live graph is acyclic and ≤ 256 deep
-        let lvl := relax nn deps
-        let rank := fun v => lvl[v]?.getD 0
-        let depth := lvl.foldl max 0
-        if rankOk g nn rank then
+        if queryInScope nn g then
+          let depth := (rankArr nn g).foldl max 0
           if depth > d.maxDepth then d := { d with maxDepth := depth }
           let obs : Aspect → Nat → Bool := fun dt v =>
             match obsArr[v]? with
@@ -398,7 +448,7 @@ def handle (d : DSt) (n : Nat) (line : String) : IO DSt := do
             | none => false
           let nd : Nat → Nat := fun v => match obsArr[v]? with | some o => o.2.2.2.1 | none => 0
           d := { d with specQ := d.specQ + 1 }
-          match specQuery nn g obs nd with
+          match specObs nn cfg (.query obs nd) with
           | some cl =>
             if !d.caseFailed then IO.println s!"SPECFAIL line={n} case={d.caseNo} clause={cl.name}"
             d := { d with specfails := d.specfails + 1, caseFailed := true }
@@ -413,4 +463,4 @@ def main : IO Unit := do
   let stdin ← IO.getStdin
   let d ← foldLines stdin handle ({} : DSt)
   let d := closeCase d
-  IO.println s!"STATS cases={d.caseNo} queries={d.queries} evaluations={d.evals} unreachable_bits={d.bits0} reachable_bits={d.bits1} spec_queries={d.specQ} spec_skipped={d.specSkipped} loads_ok={d.loadsOk} loads_cycle={d.loadsCycle} adds={d.adds} removes={d.removes} state_sets={d.sets} max_depth={d.maxDepth} groups_compared={d.groupsCmp} repr_agree={d.reprAgree} repr_differ={d.reprDiffer} runtime_adds={d.rtAdds} runtime_refused={d.rtRefused} runtime_deletes={d.rtDeletes} nontrivial={d.nontrivial} mismatches={d.mismatches} specfails={d.specfails}"
+  IO.println s!"STATS cases={d.caseNo} queries={d.queries} evaluations={d.evals} unreachable_bits={d.bits0} reachable_bits={d.bits1} spec_queries={d.specQ} spec_skipped={d.specSkipped} loads_ok={d.loadsOk} loads_cycle={d.loadsCycle} adds={d.adds} removes={d.removes} state_sets={d.sets} max_depth={d.maxDepth} groups_compared={d.groupsCmp} edges_compared={d.edgesCmp} period_bits_compared={d.periodCmp} repr_agree={d.reprAgree} repr_differ={d.reprDiffer} runtime_adds={d.rtAdds} runtime_refused={d.rtRefused} runtime_deletes={d.rtDeletes} nontrivial={d.nontrivial} mismatches={d.mismatches} specfails={d.specfails}"
